@@ -74,6 +74,10 @@ def gen_case(rng, boundary=None):
         # WTO, i.e. reachable from the CFG entry)
         cands = [0] + [v for v in range(n) if v not in inloop and v in reach]
         entry = rng.choice(cands)
+        if rng.random() < 0.3:
+            # any block of the WTO, also inside loops (the property itself only speaks of start
+            # blocks outside loops; since fix engine-4 the engine is exact there too)
+            entry = rng.choice(sorted(reach))
         for b in range(n):
             if rng.random() < 0.25:
                 asm[b] = sorted(set(rng.randrange(S) for _ in range(rng.randint(1, S))))
@@ -93,6 +97,8 @@ def gen_case(rng, boundary=None):
 
 
 CORPUS = [
+    # start block strictly inside a loop (fixed defect, engine-4)
+    "fix 2 3 1 1 1 | E 0 1 1 0 | R 0 3 0 0 1 1 2 2 | R 1 2 0 1 1 2 | I 0",
     # analysis entry is a loop head (fixed defect): a <-> b, b: s -> s+1, init {0}
     "fix 3 4 0 2 1 plain | E 0 1 1 0 0 2 | R 0 4 0 0 1 1 2 2 3 3 | R 1 3 0 1 1 2 2 3 | R 2 4 0 0 1 1 2 2 3 3 | I 0",
     "fix 2 3 0 0 0 plain | E 0 1 1 0 | R 0 3 0 0 1 1 2 2 | R 1 2 0 1 1 2 | I 0",
